@@ -389,6 +389,18 @@ pub fn big(args: &[String]) -> i32 {
             });
         }
     }
+    // documents of growing (and then shrinking) size parsed one after the other on the same thread, then on a fresh thread each: the
+    // thread-local node buffer is reused, grown and released along the way
+    let ramp: &[usize] = &[1 << 10, 40_000, 99_000, 130_000, 190_000, 197_000, 260_000, 400_000, 120_000, 5, 1 << 20, 7];
+    let mk = |n: usize| -> String { let mut t = String::with_capacity(3 * n + 16); t.push('['); for i in 0..n { if i > 0 { t.push(','); } t.push_str(if i % 7 == 3 { "\"s\"" } else { "0" }); } t.push(']'); t };
+    for same_thread in [true, false] {
+        let texts: Vec<String> = ramp.iter().map(|n| mk(*n)).collect();
+        let run = move || -> Result<(), String> { for (k, t) in texts.iter().enumerate() { let v: Value = sonic_rs::from_str(t).map_err(|e| format!("ramp {k}: {e}"))?; if v.as_array().map(|a| a.len()) != Some(ramp[k]) { return Err(format!("ramp {k}: wrong length")); }
+                let lv: sonic_rs::OwnedLazyValue = sonic_rs::from_str(t).map_err(|e| format!("ramp {k} (lazy): {e}"))?; drop(lv); } Ok(()) };
+        cases += 1;
+        let r = if same_thread { catch(run) } else { std::thread::spawn(move || catch(run)).join().unwrap_or(Err("thread died".into())) };
+        match r { Ok(Ok(())) => {}, Ok(Err(e)) => mism.push(json!({"suite":"big","class":"big","case":"ramp","why":e})), Err(p) => mism.push(json!({"suite":"big","class":"big","case":"ramp","why":format!("ramp: panic: {p}")})) }
+    }
     let summary = json!({"suite":"big","cases":cases,"mismatches":mism,"counts":counts});
     std::fs::create_dir_all(&out).ok();
     std::fs::write(format!("{out}/summary.0.json"), serde_json::to_vec(&summary).unwrap()).unwrap();
